@@ -410,3 +410,78 @@ class DiffNative(Contract):
                 yield "dim%d:labels-unchanged" % e, same(result.axes[e].values, env["labels"][e])
         yield "metadata-kept", dict(result.attrs) == env["attrs0"]
         yield "operand-untouched", _untouched(S, env, rank)
+
+
+class ReduceTuple(Contract):
+    """a.<f>(axis=(d1, d2, ...)): reducing over a tuple of dimensions IS reducing over the flattened group -- the function makes
+    exactly one call flatten((d1, d2, ...), insert=0) on the operand (recorded by the harness; what that call returns is
+    Flatten's contract) and returns NumPy's f along axis 0 of that array's values, labelled with that array's remaining
+    axes (the operand's own, in original order) and the metadata; a scalar when every dimension is listed.  [C08, C11]"""
+    target = "dimarray.core.transform:apply_along_axis"
+    props = ("C08", "C11")
+    inlined = ("_deal_with_axis", "flatten (own contract: Flatten; its call and result are recorded)", "_get_func", "_constructor")
+
+    def cases(self, tier):
+        import itertools
+        for func, skipna in (("sum", False), ("sum", True), ("mean", False), ("min", True), ("std", False)):
+            for rank in (2, 3):
+                for k in range(2, rank + 1):
+                    for D in itertools.permutations(range(rank), k):
+                        if tier == "quick" and func not in ("sum", "min") and list(D) != sorted(D):
+                            continue
+                        for form in ("tuple", "list") if (func, skipna) == ("sum", False) else ("tuple",):
+                            yield {"name": "%s-%s-r%d-dims%s-%s" % (func, "skipna" if skipna else "plain", rank, "".join(map(str, D)), form),
+                                   "func": func, "skipna": skipna, "rank": rank, "D": list(D), "form": form}
+
+    def bound_lengths(self, case):
+        return ["lab%d.n" % d for d in range(case["rank"])]
+
+    def setup(self, S, case):
+        env = _setup(S, case["rank"])
+        env["flat_calls"] = []
+        return env
+
+    def call(self, fn, env):
+        case, arr = env["case"], env["arr"]
+        cls = type(arr)
+        orig = cls.flatten
+
+        def recording_flatten(self_, *a, **k):
+            r = orig(self_, *a, **k)
+            if self_ is arr:
+                env["flat_calls"].append((a, k, r))
+            return r
+        cls.flatten = recording_flatten
+        try:
+            names = ["x%d" % d for d in case["D"]]
+            ax = tuple(names) if case["form"] == "tuple" else list(names)
+            kw = {"skipna": True} if case["skipna"] else {}
+            return getattr(arr, case["func"])(axis=ax, **kw)
+        finally:
+            cls.flatten = orig
+
+    def post(self, S, case, env, result):
+        rank, D = case["rank"], case["D"]
+        calls = env["flat_calls"]
+        ok = len(calls) == 1 and len(calls[0][0]) == 1 and tuple(calls[0][0][0]) == tuple("x%d" % d for d in D) and calls[0][1] == {"insert": 0}
+        yield "one-call-flatten-of-exactly-the-listed-dimensions-inserted-first", ok
+        if not ok:
+            return
+        F = calls[0][2]
+        ref = S.np_apply(("nan" if case["skipna"] else "") + case["func"], F.values, axis=0)
+        others = [d for d in range(rank) if d not in D]
+        if not others:
+            yield "scalar-equals-numpys-over-the-flattened-group", S.land(S.lnot(S.is_dimarray(result)), S.same(result, ref))
+        else:
+            yield "is-dimarray", S.is_dimarray(result)
+            yield "remaining-dims-in-original-order", tuple(result.dims) == tuple("x%d" % d for d in others)
+            yield "remaining-axes-are-the-operands-own", all(result.axes[i] is env["arr"].axes[d] for i, d in enumerate(others))
+            yield "values-equal-numpys-along-the-flattened-group", _same_array(S, result.values, ref, [S.n(env["labels"][d]) for d in others])
+            yield "metadata-kept", dict(result.attrs) == env["attrs0"]
+        yield "operand-untouched", _untouched(S, env, rank)
+
+    def canaries(self, S, case, env, result):
+        if S.is_dimarray(result):
+            yield "metadata-dropped", len(result.attrs) == 0
+        else:
+            yield "scalar-is-the-first-cell", S.same(result, S.at(env["data"], *([0] * case["rank"])))
